@@ -8,12 +8,12 @@ LEVEL = 'other'
 RULES = {
     'C01.R1': 'layer dispatch table: each Layer variant reaches its own generator with its own payload and the running dimension; constants by value; composed receiver is the tree being built',
     'C01.R2': 'running dimension = output dimension of the tree: arms whose generator changes the dimension assign it (Linear -> outdim(payload), heads with constant terminals -> 1), the others do not',
-    'C01.R4': 'inherited necessary conditions (shared rules): the evaluator tests mat·x - bias <= 0 (closed) and follows the label it computes; the elimination run between layers removes only Infeasible paths and never the last child of a decision',
+    'C01.R4': 'inherited necessary conditions (shared rules): the evaluator tests mat·x - bias <= 0 (closed) and follows the label it computes; the elimination run between layers removes only Infeasible paths and never the last child of a decision; every generator of the dispatch table is its activation / head (C17.R1-R3 instances of those generators)',
     'C01.R3': 'precondition: its input dimension is asserted equal to dim before use and the running dimension is taken from its terminals',
 }
 CONTROL_REV = '078b142'  # thorough tier: the rules must still report the defects found (and since fixed) on the original tree
 CONTROLS = [('C01.R2', 'afftree_from_layers_generic#dim:Argmax'), ('C01.R2', 'afftree_from_layers_generic#dim:ClassChar')]
-FLOORS = {'C01.R1': 7, 'C01.R2': 7, 'C01.R3': 1, 'C01.R4': 16}
+FLOORS = {'C01.R1': 7, 'C01.R2': 7, 'C01.R3': 1, 'C01.R4': 26}
 EXPLANATION = ('C01 is the composition of C02 (apply_func/compose), C03 (elimination), C17 (schema trees) and the clause decided here: the distiller feeds each layer to the right '
                'generator with the right arguments and keeps its running dimension equal to the tree\'s output dimension.')
 DOES_NOT_DECIDE = 'numeric agreement (delegated to C02/C03/C17 and their limits)'
@@ -89,6 +89,15 @@ def shared(ctx):
             'AffTree::apply_func#')
     for i in sub.insts:
         if i.site.startswith(keep):
+            i.rule = 'C01.R4'
+            ctx.insts.append(i)
+    # the generators the dispatch table reaches: the tree is the network only if each of them is its activation / head (decided under C17)
+    from . import c17
+    sub = Ctx(ctx.facts, ctx.tier, ctx.prop)
+    c17.run(sub)
+    gens = tuple(sorted({e[0] for e in EXPECT.values()}))
+    for i in sub.insts:
+        if i.site.split('#')[0] in gens:
             i.rule = 'C01.R4'
             ctx.insts.append(i)
 
